@@ -206,7 +206,37 @@ JUDGE_ENV = {"JAVA_TOOL_OPTIONS": "-XX:CICompilerCount=2 -XX:ParallelGCThreads=2
 
 
 def judge(pid, recs):
-    verdicts, st, tr, wall = tlc.judge(pid, "C19", recs, JUDGE_CFG, timeout=3000, env=JUDGE_ENV)
+    """sharded judge run (as harness.tlc.judge: records -> 16 files -> 16 single-worker JVMs).  Done here with tlc.run so
+    that a shard whose JVM failed (seen once on a starved machine: an Error line, exit status 0, all verdicts printed)
+    is run once more on its own and, if it fails again, leaves its whole output in the scratch directory."""
+    import os
+    from concurrent.futures import ThreadPoolExecutor
+    from harness.common import NPROC, workdir, write_ndjson
+    # a judge JVM costs 3 CPU-s before its first record and judges about 1 000 records per CPU-s: 6 000+ records each
+    # (quick: 8 JVMs, thorough: 16) instead of 16 x 3 300 saves a quarter of the judge's CPU time
+    shards = min(NPROC, max(1, len(recs) // 6000))
+    wd = workdir(pid, "judge_C19")
+    files = []
+    for k in range(shards):
+        path = os.path.join(wd, "obs_%d.ndjson" % k)
+        write_ndjson(path, recs[k::shards])
+        files.append(path)
+
+    def one(k):
+        env = dict(JUDGE_ENV)
+        env["OBS_FILE"] = files[k]
+        for attempt in (1, 2):
+            r = tlc.run(pid, "C19", JUDGE_CFG, env=env, workers=1, timeout=3000, tag="judge_C19_%d" % k, heap="2g")
+            if not r.errors and r.rc == 0:
+                return r
+            with open(os.path.join(wd, "failed_%d_attempt%d.txt" % (k, attempt)), "w") as f:
+                f.write(r.stdout)
+        raise Machinery("judge shard %d failed twice rc=%s errors=%r (output kept in %s)" % (k, r.rc, r.errors[:3], wd))
+
+    with ThreadPoolExecutor(max_workers=shards) as ex:
+        rs = list(ex.map(one, range(shards)))
+    verdicts = [v for r in rs for v in r.records]
+    st, tr = sum(r.distinct for r in rs), sum(r.generated for r in rs)
     got = {v["id"]: v for v in verdicts}
     if len(got) != len(recs):
         raise Machinery("judge returned %d verdicts for %d records" % (len(got), len(recs)))
